@@ -358,6 +358,16 @@ int mythv_choose(int id, int n) {
 #define MV_TICK_NS   1000L
 #define MV_JUMP_NS   1000000000L
 
+/* clock samples: what a watched word held each time a thread read the clock (timed waits attempt right after) */
+static const volatile void * cw_addr; static size_t cw_sz;
+static mv_csample_t CS[512]; static int ncs;
+void mv_watch(const volatile void * addr, size_t sz) { cw_addr = addr; cw_sz = sz; ncs = 0; }
+int mv_clock_samples(void * thread, mv_csample_t * out, int max) {
+  int n = 0;
+  for (int i = 0; i < ncs && n < max; i++) if (CS[i].thread == thread) { out[n] = CS[i]; out[n].next_switches = S.switches; for (int j = i + 1; j < ncs; j++) if (CS[j].thread == thread) { out[n].next_switches = CS[j].switches; break; } n++; }
+  return n;
+}
+
 int mythv_clock(struct timespec * ts) {
   if (!in_control()) return 0;
   check_owner("clock");
@@ -367,6 +377,7 @@ int mythv_clock(struct timespec * ts) {
   mv_sh->steps[mv_sh->nsteps - 1].tgt = c;
   ts->tv_sec = MV_EPOCH_SEC + S.now_ns / 1000000000L;
   ts->tv_nsec = S.now_ns % 1000000000L;
+  if (cw_addr && ncs < 512) { extern void * mythv_cur_thread(int rank); CS[ncs].thread = mythv_cur_thread(tl_w); CS[ncs].now_ns = S.now_ns; CS[ncs].value = readval(cw_addr, cw_sz); CS[ncs].switches = S.switches; ncs++; }
   return 1;
 }
 
